@@ -73,20 +73,31 @@ def run(ctx):
             continue
         r = ctx.tlc("CoinsCache", "CoinsCache", e1, name=e1[:-4])
         g = vflib.Graph(vflib.load_emitted(r.emit_path))
-        tests = list(g.edge_tests())
-        for t in tests:
-            a = t["steps"][-1]["a"]
-            per_action[a[0]] += 1
-            if a[0] in ("add", "spend", "flush", "sync", "reset") and len(t["steps"]) > 1:
-                ctx.nontrivial.add(vflib.digest([t["init"], [s["a"] for s in t["steps"]]]))
-        ctx.sample(dict(init=tests[len(tests) // 2]["init"], actions=[s["a"] for s in tests[len(tests) // 2]["steps"]],
-                        expected_final=tests[len(tests) // 2]["steps"][-1]["exp"]))
-        ctx.log("E1 %s: %d states, %d transitions -> %d implementation tests" % (e1, len(g.nodes), g.nedges, len(tests)))
-        res = ctx.run_harness(binary, "replay", tests, name=e1[:-4])
+        # one implementation test per transition while that fits in memory; for the multi-million-edge graphs of the thorough tier
+        # a path cover (every transition traversed once, on long paths) streamed to a file
+        big = g.nedges > 500000
+        tests_path = os.path.join(ctx.work, e1[:-4] + ".tests.ndjson")
+        ntests, nlayers, mid = 0, None, None
+        with open(tests_path, "w") as f:
+            for t in (g.path_cover(max_len=400) if big else g.edge_tests()):
+                if nlayers is None:
+                    nlayers = len(t["init"]["cache"])
+                for s in (t["steps"] if big else t["steps"][-1:]):
+                    per_action[s["a"][0]] += 1
+                a = t["steps"][-1]["a"]
+                if big or (a[0] in ("add", "spend", "flush", "sync", "reset") and len(t["steps"]) > 1):
+                    ctx.nontrivial.add(vflib.digest([t["init"], [s["a"] for s in t["steps"]]]))
+                if mid is None or ntests == 1000:
+                    mid = dict(init=t["init"], actions=[s["a"] for s in t["steps"]][:30], expected_final=t["steps"][-1]["exp"])
+                f.write(json.dumps(t) + "\n"); ntests += 1
+        ctx.sample(mid)
+        ctx.log("E1 %s: %d states, %d transitions -> %d implementation tests%s" % (e1, len(g.nodes), g.nedges, ntests, " (path cover)" if big else ""))
+        del g
+        res = ctx.run_harness(binary, "replay", tests_path, name=e1[:-4])
         ctx.evaluations += int(res["summary"]["tests"]); ctx.traces += int(res["summary"]["tests"])
         ctx.extra.setdefault("replayed_steps", 0); ctx.extra["replayed_steps"] += int(res["summary"]["steps"])
         vflib.report_mismatches(ctx, binary, "replay", res, adapter="coins", what_prefix="CoinsCache %s: " % e1)
-        check_deviations(ctx, res, "State_%d.cfg" % len(tests[0]["init"]["cache"]))
+        check_deviations(ctx, res, "State_%d.cfg" % nlayers)
     missing = [a for a in ("access", "have", "peek", "haveincache", "add", "spend", "uncache", "flush", "sync", "reset") if not per_action[a]]
     if missing:
         raise vflib.InfraError("vacuity: actions never taken in the bounded model: %s" % missing)
@@ -95,5 +106,5 @@ def run(ctx):
                         "callers respect the AddCoin(possible_overwrite=false) contract; a lower layer is used directly only while the layers above are empty",
                         "memory accounting is checked through CCoinsViewCache::SanityCheck (recomputation), not predicted in bytes"]
     return ctx.finish(level="model_checking", exhaustive=exhaustive,
-                      rule="one implementation test per transition of the bounded CoinsCache state graph (BFS-tree path to the source state + the edge); "
+                      rule="one implementation test per transition of the bounded CoinsCache state graph (BFS-tree path to the source state + the edge; graphs above 500k transitions: a path cover traversing every transition once); "
                            "non-trivial = distinct tests whose last action mutates (add/spend/flush/sync/reset) after at least one earlier step")
